@@ -17,9 +17,17 @@ def has_varkey(p):
     if isinstance(p, list): return any(has_varkey(v) for v in p)
     return False
 
+def stored_unindexed_key(c, k):
+    """some fact written earlier in the history holds a key whose value the term index skips on purpose ('rule', or a key ending in '!')"""
+    def hit(x):
+        if isinstance(x, dict): return any(kk == "rule" or kk.endswith("!") or hit(v) for kk, v in x.items())
+        if isinstance(x, list): return any(hit(v) for v in x)
+        return False
+    return any(o["op"] == "addFact" and hit(o.get("fact")) for o in c["ops"][:k])
+
 KNOWN = [
     # property variable as key: the value below it is a term of the pattern, but values under the keys 'rule' and 'x!' of a fact are not indexed
-    ("C02-property-variable-vs-unindexed-key", lambda c, k, op, mo, io: op["op"] == "search" and has_varkey(op["pattern"])),
+    ("C02-property-variable-vs-unindexed-key", lambda c, k, op, mo, io: op["op"] == "search" and has_varkey(op["pattern"]) and stored_unindexed_key(c, k)),
     # optional variable: the key of an optional pattern entry is still used as a term by IndexedState
     ("C02-optional-variable-term", lambda c, k, op, mo, io: op["op"] == "search" and has_optional(op["pattern"])),
 ]
